@@ -13,7 +13,7 @@ from cfg import const_int
 
 class AbsInt:
     def __init__(self, body, cfg, tracer, edge_labels=None, events=None, on_assign=None, max_states=400000,
-                 reset_at=(), reset_prefixes=(), reset_counters=(), edge_filter=None):
+                 reset_at=(), reset_prefixes=(), reset_counters=(), edge_filter=None, on_call=None):
         self.body = body
         self.cfg = cfg
         self.tr = tracer
@@ -22,6 +22,7 @@ class AbsInt:
         self.on_assign = on_assign
         self.max_states = max_states
         self.edge_filter = edge_filter
+        self.on_call = on_call
         self.reset_at = set(reset_at)
         self.reset_prefixes = tuple(reset_prefixes)
         self.reset_counters = set(reset_counters)
@@ -114,6 +115,8 @@ class AbsInt:
             counters = frozenset(c.items())
         succs = self.cfg.succ[bb]
         if t["k"] == "call":
+            if self.on_call is not None:
+                extra = self.on_call(bb, t, store, flags, counters, extra)
             d = t["dest"]
             if not d["p"]:
                 store.pop(d["l"], None)
